@@ -144,7 +144,7 @@ pub fn run_c20(ctx: &Ctx, sink: &mut Sink) {
             }
         }
     }
-    let n = ctx.budget(600_000, 8_000_000);
+    let n = ctx.budget(600_000, 40_000_000);
     for i in 0..n {
         if !ctx.mine(i) {
             continue;
@@ -392,7 +392,7 @@ pub fn run_c16(ctx: &Ctx, sink: &mut Sink) {
             paths(sink, *x, "boundary");
         }
     }
-    let n = ctx.budget(80_000, 2_000_000);
+    let n = ctx.budget(80_000, 8_000_000);
     for i in 0..n {
         if !ctx.mine(i) {
             continue;
@@ -403,7 +403,7 @@ pub fn run_c16(ctx: &Ctx, sink: &mut Sink) {
     }
     // ---- literals: the probe records what the parser made of each spelling; the exact value is
     //      computed offline from the spelling alone
-    let nl = ctx.budget(120_000, 2_000_000);
+    let nl = ctx.budget(120_000, 8_000_000);
     for i in 0..nl {
         if !ctx.mine(i) {
             continue;
@@ -452,7 +452,7 @@ fn gen_numbers(r: &mut Rng) -> (Vec<f64>, &'static str) {
 }
 
 pub fn run_c15(ctx: &Ctx, sink: &mut Sink) {
-    let n = ctx.budget(40_000, 600_000);
+    let n = ctx.budget(40_000, 2_000_000);
     let sess = Sess::new();
     let aggs = ["sum", "prod", "avg", "min", "max", "median"];
     for i in 0..n {
